@@ -5,6 +5,7 @@ From TV Require Import Base.Prelude Base.C09_Lib
   Spec.C09_Poly1305 Spec.C09_ChaCha Spec.C09_ChaChaPoly
   Base.C09_Oracle Gen.C09_KDF Model.C09_KeyCalc Spec.C09_KDF Spec.C09_KeyCalc
   Proofs.C09_Bits32 Proofs.C09_Poly1305 Proofs.C09_ChaCha Proofs.C09_ChaChaPoly Proofs.C09_KDF Proofs.C09_KeyCalc
+  Gen.C09_RC4 Gen.C09_AesModes Spec.C09_Modes Proofs.C09_Modes
   Toy.C09_ToyOracle.
 Import ListNotations.
 Open Scope list_scope.
@@ -205,3 +206,61 @@ Proof. exact pending_states_swap. Qed.
 
 Example kdf_oracle_hyps_satisfiable : oracle_ok toy_oracles /\ hash_ok toy_oracles.
 Proof. exact toy_oracles_ok. Qed.
+
+(* ---- (e) RC4, CBC, CTR ---------------------------------------------------------------- *)
+(* Python_RC4(key) computes the standard key schedule; encrypt = XOR with the RC4 key stream, threading
+   the generator state (S, i, j) *)
+Theorem rc4_init_eq_spec : forall key, 16 <= zlen key <= 256 -> Forall (fun x => 0 <= x < 256) key ->
+  rc4_init key = Ok (mkRC4 (rc4_ksa key) 0 0) /\ rc4_state_ok (rc4_ksa key, 0, 0).
+Proof. exact rc4_init_ok. Qed.
+
+Theorem rc4_encrypt_eq_spec : forall st pt,
+  rc4_state_ok (rc4_S st, rc4_i st, rc4_j st) -> Forall (fun x => 0 <= x < 256) pt ->
+  rc4_encrypt st pt =
+  let '((S', i', j'), out) := rc4_crypt (rc4_S st, rc4_i st, rc4_j st) pt in Ok (mkRC4 S' i' j', out).
+Proof. exact rc4_encrypt_ok. Qed.
+
+(* enc (a ++ b) = enc a ++ enc' b with the state threaded through the object *)
+Theorem rc4_stream_split : forall st a b, rc4_state_ok (rc4_S st, rc4_i st, rc4_j st) ->
+  Forall (fun x => 0 <= x < 256) a -> Forall (fun x => 0 <= x < 256) b ->
+  ('(st1, c1) <- rc4_encrypt st a ;; '(st2, c2) <- rc4_encrypt st1 b ;; Ok (st2, c1 ++ c2)) = rc4_encrypt st (a ++ b).
+Proof. exact rc4_stream_split_code. Qed.
+
+(* decrypt o encrypt = id for two objects in the same state, and they stay in the same state *)
+Theorem rc4_decrypt_encrypt : forall st pt,
+  rc4_state_ok (rc4_S st, rc4_i st, rc4_j st) -> Forall (fun x => 0 <= x < 256) pt ->
+  exists st' ct, rc4_encrypt st pt = Ok (st', ct) /\ rc4_decrypt st ct = Ok (st', pt).
+Proof. exact rc4_dec_enc_code. Qed.
+
+(* CBC (SP 800-38A 6.2) over ANY block function E with left inverse D on bs-byte blocks.  These two are
+   statements about Spec.C09_Modes.cbc_*_blocks, which the correspondence ties to Python_AES and
+   Python_TripleDES on every run (cbc_eq_spec for the generated Gen.C09_AesModes.cbc_encrypt is checked by
+   evaluation only, not proved) *)
+Theorem cbc_dec_enc : forall (E D : list Z -> list Z) (bs : nat), (0 < bs)%nat ->
+  (forall b, List.length b = bs -> D (E b) = b) -> (forall b, List.length b = bs -> List.length (E b) = bs) ->
+  forall blocks iv, blocks_ok bs blocks -> List.length iv = bs ->
+    let '(iv1, ct) := cbc_enc_blocks E iv blocks in
+    List.length ct = (bs * List.length blocks)%nat /\ List.length iv1 = bs /\
+    cbc_dec_blocks D iv (chunks bs ct) = (iv1, List.concat blocks).
+Proof. exact cbc_dec_enc_blocks. Qed.
+
+(* IV residue across calls: encrypting b1 then b2 with the carried chaining value = encrypting b1 ++ b2 *)
+Theorem cbc_stream_split : forall (E D : list Z -> list Z) b1 b2 iv,
+  cbc_enc_blocks E iv (b1 ++ b2) =
+    (let '(iv1, c1) := cbc_enc_blocks E iv b1 in let '(iv2, c2) := cbc_enc_blocks E iv1 b2 in (iv2, c1 ++ c2)) /\
+  cbc_dec_blocks D iv (b1 ++ b2) =
+    (let '(iv1, c1) := cbc_dec_blocks D iv b1 in let '(iv2, c2) := cbc_dec_blocks D iv1 b2 in (iv2, c1 ++ c2)).
+Proof. exact cbc_split_both. Qed.
+
+(* FULL STATEMENT ("multi-call streaming state for ... CTR"): for all a, b:
+     enc(a) followed by enc(b) on one Python_AES_CTR object = enc(a ++ b).
+   It is FALSE of the generated code when the first call ends inside a block: *)
+Theorem ctr_stream_split_refuted :
+  exists O key iv a b, exists r1 r2,
+    ctr_two_calls O key iv a b = Ok r1 /\ ctr_one_call O key iv a b = Ok r2 /\ r1 <> r2.
+Proof. exact ctr_split_refuted_witness. Qed.
+
+Example ctr_stream_split_aligned_example :
+  ctr_two_calls toy_block_oracle (repeat 1 16) (repeat 2 16) (repeat 7 16) [6; 7; 8; 9; 10; 11; 12]
+  = ctr_one_call toy_block_oracle (repeat 1 16) (repeat 2 16) (repeat 7 16) [6; 7; 8; 9; 10; 11; 12].
+Proof. exact ctr_split_aligned_example. Qed.
